@@ -124,6 +124,12 @@ def candidates(rng, cls, tag):
     qc, g = lib()
     out = []
     ket = g.Ket(*[rng.randrange(2) for _ in range(rng.choice([1, 1, 2]))])
+    if cls == "classical_tp":                                # bits, stochastic / deterministic gates
+        return [g.Bits(*[rng.randrange(2) for _ in range(rng.choice([1, 1, 2]))]),
+                stochastic_gate(rng, tag), deterministic_gate(rng, tag), g.Copy(),
+                qc.Swap(qc.bit, qc.bit)]
+    if cls == "pure_tp":                                     # preparations and unitaries only
+        return [ket, unitary(rng), unitary(rng), unitary(rng)]
     if cls == "classical":                                   # bits and non-mixed classical gates
         out += [g.Bits(*[rng.randrange(2) for _ in range(rng.choice([1, 1, 2]))]),
                 stochastic_gate(rng, tag), deterministic_gate(rng, tag), g.Copy(), g.Match(),
@@ -171,7 +177,8 @@ def gen_circuit(rng, cls, max_w, depth, dom=None):
     qc, _ = lib()
     if dom is None:
         k = rng.choice([0, 0, 1, 1, 2]) if max_w > 1 else rng.choice([0, 1])
-        dom = some_type(rng, k, {"pure": "q", "classical": "b"}.get(cls, "bq"))
+        dom = some_type(rng, k, {"pure": "q", "pure_tp": "q", "classical": "b",
+                                 "classical_tp": "b"}.get(cls, "bq"))
     c = qc.Id(dom)
     for step in range(depth):
         for _ in range(6):
@@ -287,9 +294,14 @@ def distribution_of(m, measure_qubits=False):
     quantum outputs traced out (what get_counts() and measure(mixed=True) report: a distribution
     over the output bits) or, with measure_qubits, read on their diagonal (what measure() reports
     for a circuit without bits: the Born distribution of the output qubits)."""
-    arr = np.asarray(m.array, dtype=complex)
-    ndc, ndq = len(m.dom.classical), len(m.dom.quantum)
-    ncc, ncq = len(m.cod.classical), len(m.cod.quantum)
+    return distribution_from(m.array, len(m.dom.classical), len(m.dom.quantum),
+                             len(m.cod.classical), len(m.cod.quantum), measure_qubits)
+
+
+def distribution_from(arr, ndc, ndq, ncc, ncq, measure_qubits=False):
+    """The same from a raw array in the layout [c.., q.., q'.. | c'.., p.., p'..] over wires of
+    dimension 2 (ndc / ndq classical / quantum inputs, ncc / ncq outputs)."""
+    arr = np.asarray(arr, dtype=complex)
     if arr.ndim != ndc + 2 * ndq + ncc + 2 * ncq:
         arr = arr.reshape([2] * (ndc + 2 * ndq + ncc + 2 * ncq))
     arr = arr[(0,) * (ndc + 2 * ndq)]                        # prepare zeros on every input
@@ -311,6 +323,21 @@ def expect_mixed(c):
         scan = scan[:off] @ box.cod @ scan[off + len(box.dom):]
         types.append(scan)
     return any(both(t) for t in types) or any(bool(b.is_mixed) for b in c.boxes)
+
+
+def cq_dims(ty):
+    """(classical dimensions, quantum dimensions) of a circuit type, each in wire order."""
+    return ([int(x.dim) for x in ty.objects if cqsem.is_bit(x)],
+            [int(x.dim) for x in ty.objects if not cqsem.is_bit(x)])
+
+
+def cq_type_ok(m, c):
+    from discopy.quantum.cqmap import CQMap
+    if not isinstance(m, CQMap):
+        return False
+    got = ([int(d) for d in m.dom.classical], [int(d) for d in m.dom.quantum],
+           [int(d) for d in m.cod.classical], [int(d) for d in m.cod.quantum])
+    return got == cq_dims(c.dom) + cq_dims(c.cod)
 
 
 def tp_class(c):
@@ -411,7 +438,7 @@ def compare_counts(real, model):
 
 # ------------------------------------------------------------------ one circuit
 
-def check_circuit(rep, drv, c, cls, model_budget, rng):
+def check_circuit(rep, drv, c, cls, model_budget, rng, adjoint=True):
     qc, g = lib()
     case = describe(c)
     tags = sorted({box_tag(b) for b in c.boxes})
@@ -436,6 +463,11 @@ def check_circuit(rep, drv, c, cls, model_budget, rng):
             rep.count("f3_crash")
         return
     obs = {}
+    # --- the result is a classical-quantum map between the types of the circuit: one classical
+    #     dimension per bit, one (doubled) quantum dimension per qubit
+    if not cq_type_ok(m, c):
+        rep.fail("mixed_eval_has_wrong_type", case,
+                 "eval(mixed=True) of a circuit %s -> %s is %s" % (c.dom, c.cod, show_value(m)))
     # --- independent semantics of every box kind and placement
     try:
         expect, _ = Sem().run(c)
@@ -494,7 +526,8 @@ def check_circuit(rep, drv, c, cls, model_budget, rng):
     # --- adjoints: the dagger of a circuit evaluates to the adjoint (Encode / MixedState and
     #     their daggers included).  Mixed scalars are left out: `Scalar.dagger` forgets
     #     `is_mixed`, which the property does not speak about.
-    if rng.random() < 0.6 and not any(box_tag(b) in ("Channel", "Scalar(mixed)") for b in c.boxes):
+    if adjoint and rng.random() < 0.6 and not any(
+            box_tag(b) in ("Channel", "Scalar(mixed)") for b in c.boxes):
         if any(bad_encode(b.dagger()) for b in c.boxes if isinstance(b, qc.Measure)):
             rep.fail(F22_SIG, case, "a Measure of the circuit has a dagger whose dom/cod are not "
                      "its cod/dom, so circuit.dagger() is ill-typed")
@@ -517,16 +550,21 @@ def check_circuit(rep, drv, c, cls, model_budget, rng):
     line, why = cqsem.tok_circuit(c)
     if line is None:
         rep.count("model_skipped:" + why)
-        return
+        return m
     if cqsem.model_cost(c) > model_budget:
         rep.count("model_skipped:cost")
-        return
+        return m
     rep.count("model_compared")
     asks = ["cqeval mixed " + line, "cqeval auto " + line, "cqismixed " + line]
     reals = [cqsem.ans_cq_value(m), cqsem.ans_cq_value(auto), "ok %d" % (1 if mixed_circuit else 0)]
     if pure:
         asks.append("cqdouble " + line)
         reals.append(reals[0])                               # clause (a) inside the model
+    if not any(bool(b.is_mixed) and not isinstance(b, qc.Swap) for b in c.boxes):
+        # no mixed box: the classical part (plain) times the doubled quantum part, as the model
+        # computes it from the two pure evaluations (theorem eval_mixed_flag)
+        asks.append("cqsplit " + line)
+        reals.append(reals[0])
     if tp and "counts" in obs:
         def counts_answer(counts):
             # dense over the bitstring index: absent = 0 (get_counts lists the non-zero entries)
@@ -567,6 +605,7 @@ def check_circuit(rep, drv, c, cls, model_budget, rng):
         if verdict == "differ":
             rep.disagree(stream, dict(case, request=ask[:400]), shown[:400], model[:400])
     rep.sample(dict(cls=cls, circuit=case, request=asks[0][:200], answer=answers[0][:160]))
+    return m
 
 
 def variant_circuits(rng):
@@ -828,6 +867,589 @@ def batch_sum_stream(rep, rng, n_cases):
             if not ok:
                 rep.fail("sum_eval_is_not_the_sum:%s:mixed=%s" % (shape, flag), dict(case, mixed=flag),
                          "(a + b).eval(mixed=%s) = %s, expected %s" % (flag, show_value(got), want))
+
+
+# ------------------------------------------------------------------ juxtapositions: classical next to quantum
+
+def close_bits(rng, c, tp):
+    """Close every open (bit) wire of a classical circuit: marginals (stochastic: all ones), bit
+    effects (daggered Bits), arbitrary effects."""
+    qc, g = lib()
+    while len(c.cod):
+        n = rng.choice([1, 1, 2]) if len(c.cod) >= 2 else 1
+        off = rng.randrange(len(c.cod) - n + 1)
+        r = rng.random()
+        if tp or r < 0.4:
+            eff = g.ClassicalGate("st_marginal", n, 0, [1] * 2 ** n)
+        elif r < 0.75:
+            eff = g.Bits(*[rng.randrange(2) for _ in range(n)]).dagger()
+        else:
+            eff = g.ClassicalGate("gn_effect", n, 0,
+                                  [rng.choice([0, 1, 1, 0.5, -1, 2, 0.25]) for _ in range(2 ** n)])
+        c = c >> qc.Id(c.cod[:off]) @ eff @ qc.Id(c.cod[off + n:])
+    return c
+
+
+def classical_part(rng, tp, dom=None, closed=True):
+    """A circuit of bits and non-mixed classical gates (Bits, stochastic / deterministic /
+    arbitrary gates, Copy, Match, bit swaps, weights), from `dom` (default: no input), all of
+    its outputs closed again if `closed`: a classical scalar."""
+    qc, g = lib()
+    dom = qc.Ty() if dom is None else dom
+    while True:
+        c = gen_circuit(rng, "classical_tp" if tp else "classical", rng.choice([1, 2, 2, 3]),
+                        rng.randint(1, 4), dom=dom)
+        if c.boxes and (closed or len(c.cod)):
+            break
+    return close_bits(rng, c, tp) if closed else c
+
+
+def quantum_part(rng, tp, dom=None, closed=False, max_w=2):
+    """A pure quantum circuit (Ket, gates, rotations; Bra and scalars unless tp); closed: every
+    output post-selected by a Bra."""
+    qc, g = lib()
+    while True:
+        c = gen_circuit(rng, "pure_tp" if tp else "pure", max_w, rng.randint(1, 5), dom=dom)
+        if c.boxes and (closed or len(c.cod)):
+            break
+    if closed and len(c.cod):
+        c = c >> g.Bra(*[rng.randrange(2) for _ in range(len(c.cod))])
+    return c
+
+
+JUXT_KINDS = ("coin@state", "state@coin", "segments", "insert", "open@open", "scalar@bits")
+
+
+def juxt_case(rng, k):
+    """A circuit without any mixed box made of a classical part and a quantum part that are put
+    next to each other: (kind, circuit, classical parts, quantum parts), the parts of each sort
+    in the order in which they compose."""
+    qc, g = lib()
+    kind = JUXT_KINDS[k % len(JUXT_KINDS)]
+    tp = rng.random() < 0.4
+    if kind in ("coin@state", "state@coin"):
+        # a closed classical circuit (a bit prepared, processed, marginalised or tested) beside
+        # a quantum circuit: bits and qubits never on the same layer in the first case
+        a = classical_part(rng, tp)
+        b = quantum_part(rng, tp, dom=None if rng.random() < 0.4 else qc.Ty())
+        if kind == "coin@state" and rng.random() < 0.3:
+            a = a @ classical_part(rng, tp)
+        return kind, (a @ b if kind == "coin@state" else b @ a), [a], [b]
+    if kind == "segments":
+        # closed segments one after the other; the first may have inputs, the last outputs
+        tp = False
+        first_cl = rng.random() < 0.5
+        n = rng.choice([2, 3, 3, 4])
+        cl, qu, c = [], [], None
+        for i in range(n):
+            is_cl = (i % 2 == 0) == first_cl
+            dom = None
+            if i == 0 and rng.random() < 0.4:
+                dom = some_type(rng, rng.choice([1, 2]), "b" if is_cl else "q")
+            last_open = i == n - 1 and rng.random() < 0.5
+            if is_cl:
+                seg = classical_part(rng, tp, dom=dom, closed=not last_open)
+            else:
+                seg = quantum_part(rng, tp, dom=dom if dom is not None else qc.Ty(),
+                                   closed=not last_open)
+            (cl if is_cl else qu).append(seg)
+            c = seg if c is None else c >> seg
+        return kind, c, cl, qu
+    if kind == "insert":
+        # a closed classical circuit in the middle of a quantum one, at any offset
+        a = classical_part(rng, tp)
+        b = quantum_part(rng, tp, dom=None if rng.random() < 0.4 else qc.Ty())
+        j = rng.randrange(len(b.boxes) + 1)
+        mid = b[:j].cod
+        off = rng.randrange(len(mid) + 1)
+        c = b[:j] >> qc.Id(mid[:off]) @ a @ qc.Id(mid[off:]) >> b[j:]
+        return kind, c, [a], [b]
+    if kind == "open@open":
+        # both parts with open wires: bits beside qubits without any mixed box
+        a = classical_part(rng, tp, dom=None if rng.random() < 0.3 else qc.Ty(), closed=False)
+        b = quantum_part(rng, tp, dom=None if rng.random() < 0.3 else qc.Ty(), max_w=2)
+        return kind, (a @ b if rng.random() < 0.5 else b @ a), [a], [b]
+    # scalar@bits: a post-selected (closed) quantum circuit beside an open classical circuit
+    a = classical_part(rng, False, dom=None if rng.random() < 0.4 else qc.Ty(), closed=False)
+    b = quantum_part(rng, False, dom=qc.Ty(), closed=True)
+    return kind, (b @ a if rng.random() < 0.6 else a @ b), [a], [b]
+
+
+def chain_matrix(parts):
+    """The ordered product of the plain (mixed=False) evaluations of the parts, as a matrix
+    between the flattened domain of the first and the flattened codomain of the last."""
+    out = np.ones((1, 1), dtype=complex)
+    first = True
+    for part in parts:
+        t = part.eval(mixed=False)
+        rows = int(np.prod([int(d) for d in t.dom] or [1]))
+        cols = int(np.prod([int(d) for d in t.cod] or [1]))
+        mat = np.asarray(t.array, dtype=complex).reshape(rows, cols)
+        out = mat if first else out @ mat
+        first = False
+    return out
+
+
+def hybrid_array(a, u):
+    """classical matrix a[c, c'] and amplitude matrix u[q, q'] -> the classical-quantum map
+    a (x) conj(u) (x) u in the layout [c, q, p | c', q', p'] (conjugated copy first)."""
+    return np.einsum("ab,cd,ef->acebdf", a, np.conjugate(u), u).reshape(-1)
+
+
+MIXED_FLAGS = ((True, "True"), (False, "False"), ("default", "default"), (1, "1"), (None, "None"),
+               (0, "0"))
+
+
+def juxt_stream(rep, drv, rng, n_cases, budget):
+    """Classical and quantum parts side by side in a circuit without mixed boxes.  The classical
+    part is read as it is (a classical map: a diagonal classical-quantum map), the quantum part
+    is doubled: eval(mixed=<truthy>) = a (x) conj(u) (x) u for the plain evaluations a, u of the
+    parts — whatever is_mixed says; eval(mixed=<falsy>) is that map when the circuit is mixed
+    and the plain tensor a (x) u otherwise; measure(mixed=...) reports the outcome weights read
+    off that map (Born rule: squared magnitudes, weighted by the classical part)."""
+    qc, g = lib()
+    from discopy.quantum.cqmap import CQMap
+    for k in range(n_cases):
+        sub = random.Random(rng.getrandbits(64))
+        try:
+            kind, c, cl, qu = juxt_case(sub, k)
+        except Exception as exc:  # noqa: composing discopy's own boxes must not fail
+            rep.fail("construction_raises:" + err_class(exc), dict(juxtaposition=JUXT_KINDS[k % len(
+                JUXT_KINDS)], case_number=k), "building the circuit raises %r" % exc)
+            continue
+        case = dict(describe(c), juxtaposition=kind,
+                    classical_parts=[describe(x) for x in cl], quantum_parts=[describe(x) for x in qu])
+        should_be_mixed = expect_mixed(c)
+        has_digit = any(cqsem.is_bit(x) for x in (c.dom @ c.cod).objects) or any(
+            cqsem.is_bit(x) for b in c.boxes for x in (b.dom @ b.cod).objects)
+        has_qudit = any(not cqsem.is_bit(x) for x in (c.dom @ c.cod).objects) or any(
+            not cqsem.is_bit(x) for b in c.boxes for x in (b.dom @ b.cod).objects)
+        rep.count("juxt:" + kind)
+        rep.count("juxt:%s" % ("mixed" if should_be_mixed else
+                               "not_mixed_with_bits_and_qubits" if has_digit and has_qudit
+                               else "not_mixed_one_sort"))
+        first = check_circuit(rep, drv, c, "juxt", budget, sub, adjoint=(k % 7 == 0))
+        try:
+            a, u = chain_matrix(cl), chain_matrix(qu)
+        except Exception as exc:  # noqa
+            rep.fail("eval_raises:" + err_class(exc), case, "plain evaluation of a part: %r" % exc)
+            continue
+        expect = hybrid_array(a, u)
+        plain = np.einsum("ab,cd->acbd", a, u).reshape(-1)
+        for flag, name in (MIXED_FLAGS[0], MIXED_FLAGS[1 + k % 2], MIXED_FLAGS[3 + k % 3]):
+            rep.count("juxt_eval:mixed=" + name)
+            if flag is True and first is not None:
+                got, why = first, None                       # evaluated by check_circuit just now
+            else:
+                got, why = guarded(rep, c, "eval(mixed=%s)" % name,
+                                   (lambda: c.eval()) if flag == "default"
+                                   else (lambda: c.eval(mixed=flag)))
+            if why is not None:
+                if why != "f3":
+                    rep.fail("eval_raises:" + err_class(why), dict(case, mixed=name), repr(why))
+                continue
+            if (flag and flag != "default") or should_be_mixed:
+                if not (cq_type_ok(got, c) and close(got.array, expect)):
+                    rep.fail("juxtaposition_is_not_classical_times_doubled:mixed=" + name,
+                             dict(case, mixed=name),
+                             "eval(mixed=%s) = %s; the classical part a = %s next to the quantum "
+                             "part u = %s must give a (x) conj(u) (x) u = %s" % (
+                                 name, show_value(got), np.round(a.reshape(-1), 6).tolist()[:8],
+                                 np.round(u.reshape(-1), 6).tolist()[:8],
+                                 np.round(expect, 6).tolist()[:16]))
+            elif isinstance(got, CQMap) or not close(got.array, plain):
+                rep.fail("plain_eval_of_juxtaposition_differs:mixed=" + name, dict(case, mixed=name),
+                         "eval(mixed=%s) of a circuit that is not mixed = %s, the plain tensor of "
+                         "the parts is %s" % (name, show_value(got), np.round(plain, 6).tolist()[:16]))
+        # measure(): a circuit with bits reports the weights of its output bits (qubits traced
+        # out), zeros prepared on the inputs — read off the map above
+        (ndc, ndq), (ncc, ncq) = [[len(x) for x in cq_dims(t)] for t in (c.dom, c.cod)]
+        weights = distribution_from(expect, ndc, ndq, ncc, ncq)
+        if tp_class(c):
+            # measure(mixed=True / False) and get_counts() were compared by check_tp with the
+            # distribution read off the evaluation, which is compared with the parts above
+            rep.count("juxt_measure:by_clause_tp")
+            continue
+        for flag in ((True, False) if k % 4 == 0 else (True,) if k % 4 != 2 else (False,)):
+            if not flag and not has_digit:
+                # the classical part is made of wire-less weights only: measure() takes the
+                # amplitude path and reports the Born distribution of the output QUBITS; the
+                # property does not say how a weight outside {0, 1} enters it — not checked
+                rep.count("juxt_measure:skipped_no_digit")
+                continue
+            rep.count("juxt_measure:mixed=%s" % flag)
+            got, why = guarded(rep, c, "measure(mixed=%s)" % flag, lambda: c.measure(mixed=flag))
+            if why is not None:
+                if why != "f3":
+                    rep.fail("measure_raises:" + err_class(why), dict(case, mixed=flag), repr(why))
+                continue
+            if not close(got, weights.real):                 # measure() reports real parts
+                rep.fail("measure_of_juxtaposition_differs:mixed=%s" % flag, dict(case, mixed=flag),
+                         "measure(mixed=%s) = %s; outcome weights of the classical part times the "
+                         "squared magnitudes of the quantum part: %s" % (
+                             flag, np.round(np.asarray(got).reshape(-1), 6).tolist()[:16],
+                             np.round(weights.real.reshape(-1), 6).tolist()[:16]))
+
+
+# ------------------------------------------------------------------ histories: look-alike boxes, one process
+
+def rot_matrix(theta):
+    """a real rotation (unitary), [input, output] order."""
+    co, si = np.cos(np.pi * theta), np.sin(np.pi * theta)
+    return np.array([[co, si], [-si, co]])
+
+
+def alike_values(rng, exact, n_near):
+    """A base parameter and neighbours that print like it with three significant digits."""
+    if exact:
+        base = rng.choice([0.25, 0.5, 0.75, 1.25, 1.75, -0.25, -0.75, 0.125, 0.375])
+    else:
+        base = rng.randrange(100, 1000) / 1000 * rng.choice([1, 1, 1, -1])
+        if rng.random() < 0.2:
+            base = rng.randrange(100, 400) / 100                  # 1.00 .. 3.99
+    mag = 10 ** (int(np.floor(np.log10(abs(base)))) - 2)          # one unit of the third digit
+    deltas = [0.4 * mag, -0.4 * mag, 0.49 * mag, 0.1 * mag, -0.25 * mag, 0.04 * mag]
+    rng.shuffle(deltas)
+    return base, [base + d for d in deltas[:n_near]]
+
+
+def history_groups(seed, n_groups):
+    # few groups (quick tier): one neighbour per group; otherwise one to three
+    """Groups of circuits of the same shape whose boxes look alike (same name; parameters that
+    agree to three significant digits; arrays that agree to the printed precision) but differ.
+    Built from `seed` only, so that a second process can rebuild exactly the same list."""
+    qc, g = lib()
+    rng = random.Random(seed)
+    groups = []
+    for k in range(n_groups):
+        family = ["rotation", "rotation", "rotation1", "two_in_one", "scalar", "gate", "classical",
+                  "channel", "rotation"][k % 9]
+        exact = k % 2 == 1
+        base, near = alike_values(rng, exact, 1 if n_groups < 20 else rng.choice([1, 2, 3]))
+        values = [base] + near
+        if rng.random() < 0.5:
+            values = near + [base]                            # the neighbour first
+        values = values + [values[0]]                         # and the first one once more
+        ending = rng.choice(["none", "measure", "marginal", "discard", "none"])
+        nq = 2
+
+        def finish(state):
+            if ending == "measure":
+                return state >> qc.Measure(nq)
+            if ending == "marginal":
+                return state >> qc.Measure() @ qc.Discard()
+            if ending == "discard":
+                return state >> qc.Discard() @ qc.Id(1)
+            return state
+        members = []
+        if family in ("rotation", "rotation1"):
+            r1 = rng.choice([g.Rx, g.Ry, g.Rz])
+            r2 = rng.choice([g.Rx, g.Ry, g.Rz])
+            r3 = rng.choice([g.CRz, g.CRx, g.CU1])
+            shape = rng.randrange(3)
+            for v in values:
+                if family == "rotation1":
+                    nq = 1
+                    st = g.Ket(0) >> g.H >> r1(v)
+                    members.append(st >> qc.Measure() if ending != "none" else st)
+                    continue
+                if shape == 0:
+                    st = g.Ket(0, 0) >> g.H @ r1(v) >> g.CX >> r2(v) @ qc.Id(1)
+                elif shape == 1:
+                    st = g.Ket(0, 1) >> g.H @ g.H >> r3(v) >> r1(v) @ r2(0.5)
+                else:
+                    st = g.Ket(1, 0) >> r1(v) @ g.H >> r3(v) >> g.CX >> qc.Id(1) @ r2(v)
+                members.append(finish(st))
+        elif family == "two_in_one":
+            # two look-alike rotations inside one circuit
+            r1 = rng.choice([g.Rx, g.Ry, g.Rz])
+            r3 = rng.choice([g.CRz, g.CRx, g.CU1])
+            for v, w in zip(values, values[1:] + values[:1]):
+                st = g.Ket(0, 0) >> g.H @ g.H >> r1(v) @ r1(w) >> r3(v) >> r3(w)
+                members.append(finish(st))
+        elif family == "scalar":
+            mixed = rng.random() < 0.5
+            for v in values:
+                st = g.Ket(0, 0) >> g.H @ g.X >> g.CX
+                members.append(finish(st @ g.scalar(v * (1 if mixed else 1 + 0.5j), is_mixed=mixed)))
+        elif family == "gate":
+            # user gates of one name: very different data, or data equal to the printed precision
+            tiny = rng.random() < 0.5
+            thetas = [base + (4e-9 * i if tiny else 0.37 * i) for i in range(len(values))]
+            thetas[-1] = thetas[0]
+            for th in thetas:
+                gate = g.QuantumGate("U", 1, rot_matrix(th))
+                st = g.Ket(0, 0) >> g.H @ gate >> g.CX >> gate @ qc.Id(1)
+                members.append(finish(st))
+        elif family == "classical":
+            ps = [0.9, 0.9004, 0.6, 0.9]
+            for p_ in ps:
+                flip = g.ClassicalGate("flip", 1, 1, [p_, 1 - p_, 0.2, 0.8])
+                members.append(g.Ket(0) >> g.H >> qc.Measure() >> flip)
+        else:
+            ps = [0.5, 0.5004, 0.75, 0.5]
+            xx = g.X.array.reshape(2, 2)
+            for p_ in ps:
+                def dbl(u_):
+                    return np.transpose(np.multiply.outer(np.conjugate(u_), u_), (0, 2, 1, 3))
+                noise = Channel.make("noise", qc.qubit, qc.qubit,
+                                     p_ * dbl(np.eye(2)) + (1 - p_) * dbl(xx))
+                members.append(g.Ket(0) >> g.H >> noise >> qc.Measure())
+        groups.append((family + (":exact" if exact and family.startswith(("rotation", "two"))
+                                 else ""), members))
+    return groups
+
+
+def history_eval(c, both=True):
+    """What a history run records for one circuit: eval(mixed=True) and — for circuits that are
+    not mixed, and for the first member of a group — eval(mixed=False)."""
+    out = []
+    for flag in ((True, False) if both else (True,)):
+        try:
+            v = c.eval(mixed=flag)
+            out.append(dict(kind=type(v).__name__,
+                            re=np.asarray(v.array, dtype=complex).reshape(-1).real.tolist(),
+                            im=np.asarray(v.array, dtype=complex).reshape(-1).imag.tolist()))
+        except Exception as exc:  # noqa
+            out.append(dict(kind="err", err=err_class(exc), text=repr(exc)[:200]))
+    return out
+
+
+def history_worker(seed, n_groups):
+    """Second process: the same circuits, evaluated in the opposite order; prints JSON."""
+    import json
+    groups = history_groups(seed, n_groups)
+    flat = [(i, j, c) for i, (_, ms) in enumerate(groups) for j, c in enumerate(ms)]
+    out = {}
+    for i, j, c in reversed(flat):
+        out["%d.%d" % (i, j)] = history_eval(c, j == 0 or not expect_mixed(c))
+    print("HISTORY-JSON " + json.dumps(out))
+
+
+def history_start(seed, n_groups):
+    """Start the second process (it imports the library afresh and evaluates the same list in
+    the opposite order) so that it runs while the other streams do."""
+    import os
+    import subprocess
+    import sys
+    here = os.path.dirname(os.path.dirname(os.path.abspath(__file__)))
+    return subprocess.Popen(
+        [sys.executable, "-c",
+         "import sys; sys.path.insert(0, %r); import props.c12 as m; m.history_worker(%d, %d)"
+         % (here, seed, n_groups)],
+        stdout=subprocess.PIPE, stderr=subprocess.PIPE, text=True)
+
+
+def history_stream(rep, drv, seed, n_groups, budget, proc):
+    """Evaluation must not depend on what was evaluated before in the same process.  Every member
+    of every group is evaluated here, in order, after everything the other streams evaluated, and
+    compared (tolerance 1e-9) with (i) the wire-by-wire numpy semantics (rotations from their
+    textbook matrices), (ii) the doubled pure evaluation for pure members, (iii) the exact model
+    for members at exact angles, (iv) the same evaluation made in a second process that goes
+    through the list in the opposite order, (v) its own repetition."""
+    import json
+    import subprocess
+    try:
+        groups = history_groups(seed, n_groups)
+    except Exception as exc:  # noqa
+        rep.fail("construction_raises:" + err_class(exc), dict(history_seed=seed, groups=n_groups),
+                 "building the look-alike circuits raises %r" % exc)
+        return
+    mine = {}
+    for i, (family, members) in enumerate(groups):
+        rep.count("history_group:" + family)
+        reprs = [[repr(b) for b in c.boxes] for c in members]
+        for j, c in enumerate(members):
+            case = dict(describe(c), history="group %d (%s), member %d of %d; members print %s" % (
+                i, family, j, len(members),
+                "alike" if all(r == reprs[0] for r in reprs) else "differently"),
+                        parameters=[repr(getattr(b, "data", None)) for b in c.boxes
+                                    if getattr(b, "data", None) is not None][:6])
+            rep.count("history_member:" + ("prints_like_an_earlier_one" if any(
+                reprs[j] == reprs[x] and not same_circuit(c, members[x]) for x in range(j))
+                else "same_as_an_earlier_one" if any(same_circuit(c, members[x]) for x in range(j))
+                else "first_of_its_print"))
+            rep.case("history:" + repr((i, j, case["layers"])), True)
+            both = j == 0 or not expect_mixed(c)
+            rec = history_eval(c, both)
+            mine["%d.%d" % (i, j)] = (rec, case, c)
+            history_oracle(rep, c, case, rec, light=False)
+            history_model(rep, drv, c, case, rec, budget)
+            if j == 0 and i % 3 == 0:
+                again = history_eval(c, both)
+                rep.count("history_same_circuit_twice_in_a_row")
+                if not same_record(rec, again, 1e-12):
+                    rep.fail("eval_not_reproducible", case, "evaluating the same circuit twice in "
+                             "a row gives %s then %s" % (show_record(rec), show_record(again)))
+            for x in range(j):
+                n_rec = min(len(rec), len(mine["%d.%d" % (i, x)][0]))
+                if same_circuit(c, members[x]) and not same_record(
+                        rec[:n_rec], mine["%d.%d" % (i, x)][0][:n_rec], 1e-12):
+                    rep.fail("eval_depends_on_history:same_process", case,
+                             "the circuit evaluated to %s before and to %s after look-alike circuits "
+                             "were evaluated" % (show_record(mine["%d.%d" % (i, x)][0]), show_record(rec)))
+    try:
+        out, errtxt = proc.communicate(timeout=300)
+    except subprocess.TimeoutExpired:
+        proc.kill()
+        out, errtxt = "", "timeout"
+    lines = [ln for ln in out.splitlines() if ln.startswith("HISTORY-JSON ")]
+    if not lines:
+        # the second process died: only a library failure can do that (it runs the code above)
+        rep.fail("history_second_process_failed", dict(seed=seed, groups=n_groups),
+                 "no result from the second process: " + errtxt[-600:])
+        return
+    theirs = json.loads(lines[0][len("HISTORY-JSON "):])
+    for key, (rec, case, c) in mine.items():
+        rep.count("history_compared_with_second_process")
+        if key not in theirs or not same_record(rec, theirs[key], TOL):
+            rep.fail("eval_depends_on_history", case,
+                     "this process (list evaluated in order, after the other streams) gives %s; a "
+                     "second process that evaluates the list in the opposite order gives %s" % (
+                         show_record(rec), show_record(theirs.get(key))))
+
+
+def history_oracle(rep, c, case, rec, light):
+    """The property on one recorded evaluation: eval(mixed=True) is the wire-by-wire semantics
+    (rotations from their textbook matrices); for a pure circuit it is the doubled map of the
+    recorded eval(mixed=False); a measured state gives the squared magnitudes (measure(),
+    get_counts()).  `light`: the full check ran already, only the distributions are added."""
+    qc, g = lib()
+    mixed_rec = rec[0]
+    plain_rec = rec[1] if len(rec) > 1 else dict(kind="not recorded")
+    if mixed_rec["kind"] == "err" or plain_rec["kind"] == "err":
+        bad = mixed_rec if mixed_rec["kind"] == "err" else plain_rec
+        if not light:
+            rep.fail("eval_raises:" + bad["err"], case, bad["text"])
+        return
+    got = np.asarray(mixed_rec["re"]) + 1j * np.asarray(mixed_rec["im"])
+    if not light:
+        try:
+            expect, _ = Sem().run(c)
+            rep.count("semantics_checked")
+            if not close(got, expect):
+                rep.fail("mixed_eval_differs_from_semantics:history", case,
+                         "eval(mixed=True) = %s, wire-by-wire semantics gives %s; largest "
+                         "deviation %.3g" % (np.round(got, 7).tolist()[:16],
+                                             np.round(expect.reshape(-1), 7).tolist()[:16],
+                                             float(np.max(np.abs(got - expect.reshape(-1))))
+                                             if got.shape == expect.reshape(-1).shape else -1))
+        except NotImplementedError:
+            rep.count("sem_skipped")
+        if plain_rec["kind"] == "Tensor" and not c.is_mixed:
+            rep.count("clause_a_checked")
+            u = (np.asarray(plain_rec["re"]) + 1j * np.asarray(plain_rec["im"])).reshape(
+                2 ** len(c.dom), 2 ** len(c.cod))
+            dbl = np.transpose(np.multiply.outer(np.conjugate(u), u), (0, 2, 1, 3)).reshape(-1)
+            if not close(got, dbl):
+                rep.fail("pure_mixed_not_doubled", case,
+                         "eval(mixed=True) is not conj(U) (x) U of eval(mixed=False); largest "
+                         "deviation %.3g" % float(np.max(np.abs(got - dbl))))
+    # Born rule through measure() / get_counts(): the state before the final measurement
+    if c.boxes and isinstance(c.boxes[-1], qc.Measure) and c.boxes[-1].destructive \
+            and len(c.cod) == len(c.boxes[-1].cod) and not any(
+                bool(b.is_mixed) for b in c.boxes[:-1]):
+        state = c[:len(c.boxes) - 1]
+        try:
+            amps = np.asarray(state.eval(mixed=False).array, dtype=complex).reshape(-1)
+        except Exception as exc:  # noqa
+            rep.fail("eval_raises:" + err_class(exc), case, repr(exc))
+            return
+        born = np.abs(amps) ** 2
+        rep.count("history_born_checked")
+        res, why = guarded(rep, c, "measure()", lambda: c.measure())
+        if why is None and not close(res, born):
+            rep.fail("measure_not_born:history", case, "measure() = %s, squared magnitudes of the "
+                     "amplitudes %s" % (np.round(np.asarray(res).reshape(-1), 7).tolist()[:8],
+                                        np.round(born, 7).tolist()[:8]))
+        elif why not in (None, "f3"):
+            rep.fail("measure_raises:" + err_class(why), case, repr(why))
+        counts, why = guarded(rep, c, "get_counts()", lambda: c.get_counts())
+        if why is None:
+            n = len(c.cod)
+            dense = np.zeros(2 ** n)
+            from discopy.quantum.circuit import bitstring2index
+            for bits_, v in counts.items():
+                dense[bitstring2index(bits_) if n else 0] = float(np.asarray(v).reshape(-1)[0].real)
+            if not close(dense, born):
+                rep.fail("get_counts_not_born:history", case, "get_counts() = %s, squared "
+                         "magnitudes of the amplitudes %s" % (
+                             np.round(dense, 7).tolist()[:8], np.round(born, 7).tolist()[:8]))
+        elif why != "f3":
+            rep.fail("get_counts_raises:" + err_class(why), case, repr(why))
+
+
+def history_model(rep, drv, c, case, rec, budget):
+    """Members whose box arrays all lie in the exact ring (rotations at multiples of 1/4, CU1 at
+    multiples of 1/8): the recorded eval(mixed=True) against the exact model (which has no
+    history), entry by entry."""
+    qc, _ = lib()
+    line, why = cqsem.tok_circuit(c)
+    if line is None or cqsem.model_cost(c) > budget or rec[0]["kind"] == "err":
+        rep.count("history_model_skipped:" + (why or "cost-or-error"))
+        return
+    (dc, dq), (cc, cq) = cq_dims(c.dom), cq_dims(c.cod)
+    real = cqsem.Ans("ok cq %s %s %s %s" % (cqsem.tok_dims(dc), cqsem.tok_dims(dq),
+                                            cqsem.tok_dims(cc), cqsem.tok_dims(cq)),
+                     np.asarray(rec[0]["re"]) + 1j * np.asarray(rec[0]["im"]))
+    asks = ["cqeval mixed " + line]
+    if not any(bool(b.is_mixed) and not isinstance(b, qc.Swap) for b in c.boxes):
+        asks.append("cqsplit " + line)
+    for ask in asks:
+        model = drv.ask(ask)
+        verdict = cqsem.compare_answer(real, model)
+        stream = "history:" + ask.split(" ")[0]
+        rep.count("model_answers:%s:%s" % (stream, verdict))
+        if verdict == "differ":
+            shown = real.tokens() or real.header + " <floats> " + str(real.entries.tolist()[:16])
+            rep.disagree(stream, dict(case, request=ask[:400]), shown[:400], model[:400])
+
+
+def same_circuit(c, d):
+    """Same boxes with the same data at the same places (not `==` of the library, which may go
+    by the printed form)."""
+    def key(x):
+        out = [str(x.dom)]
+        for b, o in zip(x.boxes, x.offsets):
+            arr = getattr(b, "array", None)
+            data = None if arr is None else np.asarray(arr, dtype=complex).reshape(-1).tolist()
+            out.append((type(b).__name__, str(b.dom), str(b.cod), o, bool(b.is_dagger),
+                        bool(b.is_mixed), data))
+        return out
+    return key(c) == key(d)
+
+
+def same_record(x, y, tol):
+    if x is None or y is None or len(x) != len(y):
+        return False
+    for a, b in zip(x, y):
+        if a["kind"] != b["kind"]:
+            return False
+        if a["kind"] == "err":
+            if a["err"] != b["err"]:
+                return False
+            continue
+        va = np.asarray(a["re"]) + 1j * np.asarray(a["im"])
+        vb = np.asarray(b["re"]) + 1j * np.asarray(b["im"])
+        if va.shape != vb.shape:
+            return False
+        scale = max(1.0, float(np.max(np.abs(va))) if va.size else 1.0)
+        if not np.all(np.abs(va - vb) <= tol * scale):
+            return False
+    return True
+
+
+def show_record(x):
+    if x is None:
+        return "nothing"
+    out = []
+    for a in x:
+        if a["kind"] == "err":
+            out.append("err " + a["err"])
+        else:
+            v = np.asarray(a["re"]) + 1j * np.asarray(a["im"])
+            out.append("%s %s" % (a["kind"], np.round(v, 7).tolist()[:8]))
+    return " / ".join(out)
 
 
 # ------------------------------------------------------------------ clause (b): Born rule, marginals, adjoints
@@ -1141,7 +1763,21 @@ def run(tier, seed, replay=None):
         "(a weight box placed anywhere in a circuit: linearity); batch evaluations c0.eval(c1, c2, "
         "mixed=True/False) of 2-3 unrelated circuits (pure and mixed together) against the single "
         "evaluations, and formal sums of 2-3 circuits qubit^n -> qubit^n (n = 0, 1, 2; pure terms "
-        "only / mixed only / both) against the sum of the evaluations of their terms; plus a Born-rule stream (random pure states of 1-3 qubits, every "
+        "only / mixed only / both) against the sum of the evaluations of their terms; juxt (no mixed "
+        "box: a classical part of Bits, stochastic / deterministic / arbitrary classical gates, Copy, "
+        "Match, bit swaps, weights, daggered Bits, closed by marginals or bit effects or left open, "
+        "put next to a pure quantum part as A @ B, B @ A, closed segments one after the other, a "
+        "closed classical circuit inserted anywhere in the quantum one, both open, a post-selected "
+        "quantum scalar beside open bits; is_mixed False although Digits are present in about half "
+        "of them) evaluated with mixed = True / False / default and one of 1 / None / 0, and "
+        "measure(mixed=True/False), against classical part (x) doubled quantum part computed from "
+        "the plain evaluations of the parts; history (9 families of circuits whose boxes print "
+        "alike but differ: rotation phases / scalars agreeing to 3 significant digits, also two in "
+        "one circuit and at exact angles; user gates, classical gates and channels of one name with "
+        "different data or data equal to the printed precision; each followed by nothing, Measure, "
+        "Measure @ Discard, Discard; neighbour first or base first, the first one once more at "
+        "the end) evaluated in order at the end of the run AND in the opposite order by a second "
+        "process; plus a Born-rule stream (random pure states of 1-3 qubits, every "
         "Measure variant, partial discards, all Encode/MixedState adjoints) and a CQMap expression "
         "stream (then/tensor/dagger/swap/measure/encode/discard/pure/classical/literals over "
         "dimensions 2 and 3, ~10% ill-typed compositions); non-trivial = circuit of >= 2 boxes of "
@@ -1149,7 +1785,12 @@ def run(tier, seed, replay=None):
         "or tensor; distinct by input")
     rep.partial = [
         "get_counts()/measure() glue and the is_mixed selection are modelled and compared but no "
-        "theorem is claimed about them (oracle + correspondence only)",
+        "theorem is claimed about them (oracle + correspondence only); eval(mixed=True) of circuits "
+        "without mixed boxes is proved (eval_mixed_flag) to be the classical part next to the "
+        "doubled quantum part whatever is_mixed says",
+        "independence of the evaluation history (no state carried between calls) is outside the "
+        "model, which is a pure function: it is checked by the history stream only (oracle at 1e-9, "
+        "exact model at exact angles, and a second process evaluating in the opposite order)",
         "the swap network of CQMap.tensor (cqmap.py:167-186) is taken at its specification (the "
         "block permutation); it is validated against the code by the cq-expr and circuit streams",
         "Tensor.then/tensor/dagger/swap are taken at their C08 entry formulas; tensor.Functor at "
@@ -1172,15 +1813,26 @@ def run(tier, seed, replay=None):
     ]
     rep.lean = lean_obligations(PROP, thorough=(tier == "thorough"))
     quick = tier == "quick"
-    n_circuits = dict(general=20, tp=16, pure=11) if quick else dict(general=360, tp=280, pure=170)
-    n_born = 4 if quick else 70
+    n_circuits = dict(general=17, tp=13, pure=9) if quick else dict(general=280, tp=220, pure=130)
+    n_born = 4 if quick else 55
     n_variant_rounds = 1 if quick else 8
-    n_late, n_weight, n_classical = (12, 6, 6) if quick else (160, 100, 100)
-    n_batch = 9 if quick else 150
+    n_late, n_weight, n_classical = (10, 6, 6) if quick else (140, 80, 80)
+    n_batch = 8 if quick else 110
+    n_juxt, n_history = (12, 9) if quick else (84, 27)
     n_expr = 150 if quick else 2500
     budget = 3e5 if quick else 3e6
     rng = random.Random(seed)
+    hist_seed = random.Random(seed * 7919 + 12).getrandbits(48)
+    hist_proc = history_start(hist_seed, n_history)
     drv = Driver()
+    import time
+    walls = rep.extra.setdefault("stream_wall_s", {})
+    mark = [time.time()]
+
+    def lap(name):
+        now = time.time()
+        walls[name] = round(walls.get(name, 0) + now - mark[0], 2)
+        mark[0] = now
     try:
         for cls in ("general", "tp", "pure"):
             for _ in range(n_circuits[cls]):
@@ -1188,6 +1840,7 @@ def run(tier, seed, replay=None):
                 max_w = sub.choice([1, 2, 2, 3, 3, 3, 4, 4])
                 c = gen_circuit(sub, cls, max_w, sub.randint(1, 8))
                 check_circuit(rep, drv, c, cls, budget, sub)
+        lap("random_circuits")
         for _ in range(n_variant_rounds):
             sub = random.Random(rng.getrandbits(64))
             for c in variant_circuits(sub):
@@ -1195,14 +1848,25 @@ def run(tier, seed, replay=None):
         sub = random.Random(rng.getrandbits(64))
         for c in late_mix_circuits(sub, n_late):
             check_circuit(rep, drv, c, "latemix", budget, sub)
+        lap("variants_latemix")
         weight_stream(rep, drv, random.Random(rng.getrandbits(64)), n_weight, budget)
         sub = random.Random(rng.getrandbits(64))
         for _ in range(n_classical):
             c = gen_circuit(sub, "classical", sub.choice([1, 2, 2, 3]), sub.randint(1, 6))
             check_circuit(rep, drv, c, "classical", budget, sub)
+        lap("weight_classical")
+        juxt_stream(rep, drv, random.Random(rng.getrandbits(64)), n_juxt, budget)
+        lap("juxt")
         batch_sum_stream(rep, random.Random(rng.getrandbits(64)), n_batch)
+        lap("batch_sum")
         born_stream(rep, random.Random(rng.getrandbits(64)), n_born)
+        lap("born")
         cqexpr_stream(rep, drv, random.Random(rng.getrandbits(64)), n_expr)
+        lap("cqexpr")
+        history_stream(rep, drv, hist_seed, n_history, budget, hist_proc)
+        lap("history")
     finally:
         drv.close()
+        if hist_proc.poll() is None:
+            hist_proc.kill()
     return rep.finish()
